@@ -20,6 +20,7 @@ pub fn judge(h: &History, recs: &[StepRec]) -> Result<(u32, u32), Failure> {
     let mut accepted = 0;
     let mut expect_first_uplink: Option<([u8; 16], [u8; 16], u32)> = None;
     let mut joined_model = matches!(h.activation, Activation::Abp { .. });
+    let mut rxc_accepts_since_join = 0u32;
     for r in recs {
         if r.outcome.is_panic() {
             break;
@@ -31,6 +32,7 @@ pub fn judge(h: &History, recs: &[StepRec]) -> Result<(u32, u32), Failure> {
             Step::Join(_) => {
                 attempts += 1;
                 expect_first_uplink = None;
+                rxc_accepts_since_join = 0;
                 // ---- the JoinRequest
                 let Some(t) = r.txs.first() else { return Err(Failure::new("join-request-sent", case(), format!("join attempt at step {} handed nothing to the radio: {}", r.index, r.outcome.text()))) };
                 let jr = match refcodec::decode_join_request(&t.bytes) {
@@ -152,11 +154,17 @@ pub fn judge(h: &History, recs: &[StepRec]) -> Result<(u32, u32), Failure> {
                 }
                 if let Some((nwk, _app, addr)) = expect_first_uplink.take() {
                     let Some(t) = r.txs.first() else { continue };
-                    let ok = t.view.as_ref().map(|v| v.dev_addr == addr && v.fcnt16 == 0).unwrap_or(false) && refcodec::data_mic_ok(&t.bytes, &nwk, 0);
+                    // counter 0 — unless downlinks were accepted while listening (Class C) before the
+                    // first uplink: the stack consumes one uplink counter value per accepted downlink
+                    // (counters may skip, C06), so any value up to that number is a restarted counter
+                    let ok = (0..=rxc_accepts_since_join).any(|c| t.view.as_ref().map(|v| v.dev_addr == addr && v.fcnt16 as u32 == c).unwrap_or(false) && refcodec::data_mic_ok(&t.bytes, &nwk, c));
                     if !ok {
-                        return Err(Failure::new("first-uplink", case(), format!("first uplink after the join does not verify under the derived NwkSKey with counter 0 and the assigned address: {}", hex(&t.bytes))));
+                        return Err(Failure::new("first-uplink", case(), format!("first uplink after the join does not verify under the derived NwkSKey with counter 0 (..={rxc_accepts_since_join}) and the assigned address: {}", hex(&t.bytes))));
                     }
                 }
+            }
+            Step::RxcListen(_) => {
+                rxc_accepts_since_join += r.deliveries.iter().filter(|d| matches!(d.verdict, Verdict::Accept { .. } | Verdict::SizeDontCare)).count() as u32;
             }
             _ => {}
         }
@@ -286,4 +294,8 @@ pub fn run(ctx: &mut Ctx) {
             st.fail(f);
         }
     });
+    // ---- cross-generator stage (see props/cross.rs)
+    ctx.rule.push_str(super::cross::CROSS_RULE);
+    let cross_cases = ctx.tier.pick(super::cross::QUICK_PER_GEN, super::cross::THOROUGH_PER_GEN);
+    super::cross::stage(ctx, "C11", cross_cases);
 }
